@@ -281,7 +281,13 @@ def c2_checks(w, v):
 def _run_c2(desc):
     w = desc['w']
     acc = Acc('c2', desc)
-    for v in range(-(1 << w), 1 << (w + 1)):
+    if desc.get('corner'):
+        M = 1 << w
+        dom = sorted({-M, -M + 1, -(M >> 1) - 1, -(M >> 1), -(M >> 1) + 1, -2, -1, 0, 1, 2, (M >> 1) - 1, M >> 1, (M >> 1) + 1,
+                      M - 2, M - 1, M, M + 1, 2 * M - 1, M // 3, -(M // 3)})
+    else:
+        dom = range(-(1 << w), 1 << (w + 1))
+    for v in dom:
         fails, obs = c2_checks(w, v)
         acc.evals += 1
         if v % (1 << w):
@@ -468,8 +474,10 @@ def _run_fixed(desc):
     for reading in ('floor', 'toward_zero'):
         acc = Acc('fixed', desc)
         sensitive = 0
-        for ua in range(1 << w):
-            for ub in range(1 << w):
+        from mc import comb as _comb
+        dom = _comb.corner_values(w) if desc.get('corner') else range(1 << w)
+        for ua in dom:
+            for ub in dom:
                 fails, obs, sens = fixed_checks(fmt, ua, ub, reading)
                 acc.evals += 1
                 sensitive += sens
@@ -503,6 +511,10 @@ def shards(tier):
         for lo in range(0, 2048, step):
             out.append({'section': 'dp', 'sign': s, 'elo': lo, 'ehi': lo + step, 'k': k})
     out += [{'section': 'c2', 'w': w} for w in range(1, 11)]
+    # special widths / wide formats with boundary values only
+    out += [{'section': 'c2', 'w': w, 'corner': 1} for w in ((15, 16, 17, 31, 32, 33, 63, 64, 65, 127, 128) if T else (16, 31, 32, 33, 63, 64, 65))]
+    out += [{'section': 'fixed', 'fmt': list(f), 'corner': 1} for f in
+            [(1, 7, 8), (1, 15, 16), (1, 16, 15), (1, 31, 32), (0, 16, 16), (0, 8, 8), (1, 2, 13), (1, 1, 30), (1, 30, 1)]]
     n = 64 if T else 32
     out += [{'section': 'arith', 'tier': tier, 'slice': i, 'of': n} for i in range(n)]
     out += [{'section': 'fixed', 'fmt': list(f)} for f in fxp.formats(7 if T else 5, signs=(0, 1))]
